@@ -23,6 +23,9 @@ pub enum TokRef {
     Random(u64),
     /// arbitrary bytes of this length (20 gives a never-issued token)
     Len(u8),
+    /// this IP's most recent token with `n` extra bytes appended / cut to its first `n` bytes
+    MinePlus(u8),
+    MinePrefix(u8),
 }
 
 #[derive(Clone, Debug, Serialize, Deserialize)]
@@ -65,6 +68,8 @@ fn event(with_restart: bool) -> impl Strategy<Value = Ev> {
         1 => (0u8..3).prop_map(TokRef::Previous),
         1 => any::<u64>().prop_map(TokRef::Random),
         1 => (0u8..=40).prop_map(TokRef::Len),
+        1 => (1u8..24).prop_map(TokRef::MinePlus),
+        1 => (0u8..20).prop_map(TokRef::MinePrefix),
     ];
     prop_oneof![
         5 => gap().prop_map(|ms| Ev::Gap { ms }),
@@ -159,6 +164,15 @@ impl Model {
                 (t, "never-issued")
             }
             TokRef::Len(l) => (vec![0x5d; *l as usize], if *l == 20 { "never-issued" } else { "wrong-length" }),
+            TokRef::MinePlus(n) | TokRef::MinePrefix(n) => {
+                let mut t = self.by_ip.get(&ip).and_then(|v| nth(v, 0)).unwrap_or_else(|| vec![0x5e; 20]);
+                if matches!(r, TokRef::MinePlus(_)) {
+                    t.extend(std::iter::repeat(0x2a).take(*n as usize));
+                } else {
+                    t.truncate(*n as usize);
+                }
+                (t, "wrong-length")
+            }
         }
     }
 }
@@ -327,7 +341,7 @@ fn strategy(with_restart: bool, max: usize) -> BoxedStrategy<Case> {
     prop_oneof![4 => free, 1 => structured].boxed()
 }
 
-const RULE: &str = "histories of 5..80 events over up to hours: get_peers(ip, port) collecting tokens, announce(ip, port', token reference, hash, port mode) with token = k-th most recent of this IP / of another IP / of a previous instance / random 20 B / length 0..40, idle gaps from a mixture hugging the rotation arithmetic (0..2 s, 599..601 s, 1199..1201 s, 1799..1801 s, exact 600/1200 s, uniform to 2 h; 1 ms resolution), 6 IPs of one family per case, restarts of the node; 20 % of the histories start with 1..3 structured rounds (token issued up to 3 s before the 10-minute mark of the current secret, another request up to 3 s later, announce when the token is 10 min - 0..0.6 s old). Oracle: interval model (must accept <=10 min after issue to that IP; must refuse 203 if never issued to that IP by this instance, wrong length, or all issues >=30 min old; otherwise either) plus store checks by a follow-up get_peers. Non-trivial: a must-accept and a must-reject decision on the same token value, or a cross-IP attempt";
+const RULE: &str = "histories of 5..80 events over up to hours: get_peers(ip, port) collecting tokens, announce(ip, port', token reference, hash, port mode) with token = k-th most recent of this IP / of another IP / of a previous instance / random 20 B / length 0..40 / this IP's token with extra bytes or cut to a prefix, idle gaps from a mixture hugging the rotation arithmetic (0..2 s, 599..601 s, 1199..1201 s, 1799..1801 s, exact 600/1200 s, uniform to 2 h; 1 ms resolution), 6 IPs of one family per case, restarts of the node; 20 % of the histories start with 1..3 structured rounds (token issued up to 3 s before the 10-minute mark of the current secret, another request up to 3 s later, announce when the token is 10 min - 0..0.6 s old). Oracle: interval model (must accept <=10 min after issue to that IP; must refuse 203 if never issued to that IP by this instance, wrong length, or all issues >=30 min old; otherwise either) plus store checks by a follow-up get_peers. Non-trivial: a must-accept and a must-reject decision on the same token value, or a cross-IP attempt";
 
 pub struct Component;
 
